@@ -90,3 +90,80 @@ func onlyReads(cell ssa.Value, stores *int, seen map[ssa.Value]bool) bool {
 	}
 	return true
 }
+
+// constCell: a local variable cell that is assigned exactly once, in the entry block, and whose
+// address is otherwise only loaded from or captured by closures that only read it. Every load
+// from it yields the assigned value.
+func constCell(a *ssa.Alloc) (ssa.Value, bool) {
+	stores := 0
+	if !onlyReads(a, &stores, map[ssa.Value]bool{}) || stores != 1 {
+		return nil, false
+	}
+	for _, r := range *a.Referrers() {
+		if st, ok := r.(*ssa.Store); ok && st.Addr == a {
+			return st.Val, true
+		}
+	}
+	return nil, false
+}
+
+// constCellAt: as constCell, for a load at the given instruction: the single store must
+// dominate it.
+func constCellAt(a *ssa.Alloc, load ssa.Instruction) (ssa.Value, bool) {
+	v, ok := constCell(a)
+	if !ok {
+		return nil, false
+	}
+	for _, r := range *a.Referrers() {
+		st, isStore := r.(*ssa.Store)
+		if !isStore || st.Addr != a {
+			continue
+		}
+		if st.Block() == load.Block() {
+			for _, ins := range st.Block().Instrs {
+				if ins == st {
+					return v, true
+				}
+				if ins == load {
+					return nil, false
+				}
+			}
+		}
+		if st.Block().Dominates(load.Block()) {
+			return v, true
+		}
+	}
+	return nil, false
+}
+
+// privateCell: a local variable cell that only this function writes: its address is used for
+// loads and stores here and captured by closures that only read it. A callee cannot change it.
+func privateCell(a *ssa.Alloc) bool {
+	refs := a.Referrers()
+	if refs == nil {
+		return false
+	}
+	for _, r := range *refs {
+		switch x := r.(type) {
+		case *ssa.UnOp:
+		case *ssa.DebugRef:
+		case *ssa.Store:
+			if x.Addr != a {
+				return false
+			}
+		case *ssa.MakeClosure:
+			g := x.Fn.(*ssa.Function)
+			for j, b := range x.Bindings {
+				if b == a {
+					n := 0
+					if !onlyReads(g.FreeVars[j], &n, map[ssa.Value]bool{}) || n != 0 {
+						return false
+					}
+				}
+			}
+		default:
+			return false
+		}
+	}
+	return true
+}
